@@ -1,7 +1,7 @@
 import sys, time
 sys.path.insert(0, "/tmp/vw/C19/harness"); sys.path.insert(0, "/repo")
 import common, c19
-rng = common.Rng(7)
+rng = common.Rng(0)
 t=time.time()
 FAMS = sys.argv[1].split(",")
 cs = [c for c in c19.cases(sys.argv[2] if len(sys.argv)>2 else "quick", rng) if c["family"] in FAMS]
@@ -18,7 +18,7 @@ for r in res:
         nb+=1
         if nb<=8:
             print("----", r["case"]["family"], r["case"].get("mode"), r["case"]["hist"])
-            print("  obj", {k:v for k,v in r["case"]["obj"].items() if k!="chans"}, {c:(v and (v[0],len(v[1]))) for c,v in r["case"]["obj"]["chans"].items()})
+            print("  obj", str(r["case"]["obj"])[:300])
             print("  clause", r["clause"])
             print("  bad", r["case"].get("_bad"))
             print("  tags", c19.tags(r["case"], r))
